@@ -32,7 +32,7 @@ type fakeBlocks struct {
 
 func (f *fakeBlocks) Subscribe(string) <-chan types.EventNewBlock { return f.ch }
 func (f *fakeBlocks) GetCurrentBlockNumber() uint64               { return f.cur }
-func (f *fakeBlocks) String() string                             { return "fake" }
+func (f *fakeBlocks) String() string                              { return "fake" }
 
 type ev struct {
 	Epoch   uint64
@@ -80,7 +80,7 @@ func units(tier string) []mc.Unit {
 }
 
 // reference: integer arithmetic on the property's own terms.
-func epochOf(p params, b uint64) uint64 { return 1 + (b-p.Start)/p.Len }
+func epochOf(p params, b uint64) uint64    { return 1 + (b-p.Start)/p.Len }
 func epochStart(p params, e uint64) uint64 { return p.Start + (e-1)*p.Len }
 func qualifies(p params, b uint64) bool {
 	elapsed := b - epochStart(p, epochOf(p, b))
